@@ -27,7 +27,9 @@ impl TokenSet {
     }
 
     pub(crate) const fn contains(&self, kind: SyntaxKind) -> bool {
-        self.0 & mask(kind) != 0
+        // Only kinds < 128 can be members. Kinds beyond that (e.g. the node kind
+        // `VERSION_STRING`, which the lexer also uses as a token kind) are never in a set.
+        (kind as usize) < 128 && self.0 & mask(kind) != 0
     }
 }
 
